@@ -179,9 +179,11 @@ class XRayTransform2D(LinearOperator):
         inds = jnp.where(inds >= 0, inds, ny)
 
         # the idea: [y[0, inds[0]], y[1, inds[1]], ...]
-        HTy = jnp.sum(y[jnp.arange(len(angles)).reshape(-1, 1, 1), inds] * weights, axis=0)
+        # out of bounds bins are dropped by the projector, so they must contribute zero here
+        view = jnp.arange(len(angles)).reshape(-1, 1, 1)
+        HTy = jnp.sum(y.at[view, inds].get(mode="fill", fill_value=0.0) * weights, axis=0)
         HTy = HTy + jnp.sum(
-            y[jnp.arange(len(angles)).reshape(-1, 1, 1), inds + 1] * (1 - weights), axis=0
+            y.at[view, inds + 1].get(mode="fill", fill_value=0.0) * (1 - weights), axis=0
         )
 
         return HTy
@@ -377,10 +379,12 @@ class XRayTransform3D(LinearOperator):
         ul_ind, ul_weight, ur_weight, ll_weight, lr_weight = XRayTransform3D._calc_weights(
             HTy.shape, matrix, y.shape, slice_offset
         )
-        HTy = HTy + y[ul_ind[0], ul_ind[1]] * ul_weight
-        HTy = HTy + y[ul_ind[0] + 1, ul_ind[1]] * ur_weight
-        HTy = HTy + y[ul_ind[0], ul_ind[1] + 1] * ll_weight
-        HTy = HTy + y[ul_ind[0] + 1, ul_ind[1] + 1] * lr_weight
+        # out of bounds bins are dropped by the projector, so they must contribute zero here
+        get = lambda i, j: y.at[i, j].get(mode="fill", fill_value=0.0)
+        HTy = HTy + get(ul_ind[0], ul_ind[1]) * ul_weight
+        HTy = HTy + get(ul_ind[0] + 1, ul_ind[1]) * ur_weight
+        HTy = HTy + get(ul_ind[0], ul_ind[1] + 1) * ll_weight
+        HTy = HTy + get(ul_ind[0] + 1, ul_ind[1] + 1) * lr_weight
         return HTy
 
     @staticmethod
